@@ -83,7 +83,11 @@ def manifest_roundtrip(tier, focus):
             mh.path = (DIRS if is_dir else PATHS)[i % (2 if is_dir else 4)]
             if not is_dir:
                 mh.file_size = sym.int("size%d" % i, 0, 10 ** 15)
-            if pick("renamed%d" % i, [False, True], "records"):
+            ren = pick("renamed%d" % i, [False, True, "to-the-path-of-the-next-record"] if i == 0 else [False, True], "records")
+            if ren == "to-the-path-of-the-next-record":
+                # (a file moved away and another one moved into its place: the former path of record 0 is the path of record 1)
+                mh.previous_path = (DIRS if is_dir else PATHS)[1 % (2 if is_dir else 4)]
+            elif ren:
                 mh.previous_path = "old name %d &.dat" % i
             subsets = [[f] for f in rec_fmts] + [rec_fmts] + ([[]] if is_dir else [])
             subset = pick("formats%d" % i, subsets[::-1] if is_dir else subsets, "records")
@@ -155,7 +159,7 @@ def manifest_roundtrip(tier, focus):
                 if is_dir:
                     b.require(truth(e.structure_hash_string == struct), "entry-structure-hash", "%s %s" % (path, f))
             b.require(back.find_media_hash_for_path(path) is mh, "lookup-by-path", path)
-            if prev:
+            if prev and prev not in [w[0] for w in written]:  # (a former path that is another record's path finds that record)
                 b.require(back.find_media_hash_for_path(prev) is mh, "lookup-by-previous-path", prev)
         got_refs = [(r.path, r.reference_hash) for r in back.hash_list_references]
         b.require(len(got_refs) == len(refs) and all(g[0] == w[0] and truth(g[1] == w[1]) for g, w in zip(got_refs, refs)), "references",
